@@ -1184,8 +1184,16 @@ def rule_t16(ctx):
     for b in range(body.n):
         t = body.term(b)
         if t and t["k"] == "switch" and t["discr"]["k"] in ("copy", "move"):
-            for (r, p) in body.trace(t["discr"]["place"], through={}):
-                if r[0] == "call" and mir.last_seg(str(r[2])) == "is_empty":
+            roots = set(body.trace(t["discr"]["place"], through={}))
+            # `v.len() > 0` / `v.len() != 0` / `0 < v.len()` spell the same test
+            for (r, p) in list(roots):
+                if r[0] == "rv" and r[1] == "binop":
+                    rv = body.blocks[r[2]]["stmts"][r[3]]["rv"]
+                    for side, other in (("l", "r"), ("r", "l")):
+                        if rv[other]["k"] == "const" and rv[other].get("val") == 0 and rv[side]["k"] in ("copy", "move"):
+                            roots |= set(body.trace(rv[side]["place"], through={}))
+            for (r, p) in roots:
+                if r[0] == "call" and mir.last_seg(str(r[2])) in ("is_empty", "len"):
                     c = body.term(r[1])
                     if c["args"] and c["args"][0]["k"] in ("copy", "move"):
                         # the vector tested is the one the RecursiveTypeDef errors are pushed into
@@ -1214,6 +1222,12 @@ def rule_t16(ctx):
             for g in guards:
                 t = body.term(g)
                 neg = any(r[0] == "rv" and r[1] == "unop" for (r, p) in body.trace(t["discr"]["place"], through={}))
+                for (r, p) in body.trace(t["discr"]["place"], through={}):
+                    if r[0] == "rv" and r[1] == "binop":
+                        rv = body.blocks[r[2]]["stmts"][r[3]]["rv"]
+                        zero_right = rv["r"]["k"] == "const" and rv["r"].get("val") == 0
+                        # len > 0, len != 0, 0 < len, 0 != len: true means `found some`
+                        neg = (rv["op"] in ("Gt", "Ne") and zero_right) or (rv["op"] in ("Lt", "Ne") and not zero_right)
                 found_edges = ([t["otherwise"]] if neg else [x for v, x in t["targets"] if v == 0])
                 for x in found_edges:
                     if body.path(x, fn_checks):
